@@ -331,14 +331,15 @@ func (s *UtxoStore) VerifWF() bool { return s != nil && s.bucketMeta != nil }
 
 //@ func putRawUnminedInput
 //@   props C09 C18 C19
-//@   requires ns != nil && len(k) == 36 && len(v) == 32 && miWF(ns)
+//@   requires ns != nil && len(k) == 36 && len(v) == 32
 //@   modifies bmap(ns)
 //@   ensures err != nil ==> bsame(ns)
 //@   ensures err == nil ==> bhas(ns, k) && bsameExcept(ns, k)
 //@   ensures err == nil ==> len(bval(ns, k)) == old(len(bval(ns, k))) + 32
 //@   ensures err == nil ==> bytesEq(bval(ns, k), old(len(bval(ns, k))), old(v), 0, 32)
 //@   ensures err == nil ==> bytesEq(bval(ns, k), 0, old(bval(ns, k)), 0, old(len(bval(ns, k))))
-//@   ensures miWF(ns)
+// the schema invariant of the bucket is preserved
+//@   ensures old(miWF(ns)) ==> miWF(ns)
 
 //@ func existsRawUnminedInput
 //@   props C09 C19
@@ -445,6 +446,9 @@ func (s *UtxoStore) VerifWF() bool { return s != nil && s.bucketMeta != nil }
 //@ func (*UtxoStore).ScriptAddressBalance
 //@   props C01 C10 C17 C19
 //@   requires s != nil && s.bucketMeta != nil && s.ksmgr != nil && tx != nil && txpool != nil
+// C17 (one block boundary): the height coins are classified against is the sync height recorded in the very
+// snapshot (read transaction) the coins are read from
+//@   requires[C17] syncHeight == ghostu64("syncHeightOf", tx)
 //@   requires ghostOf[*keystore.AddrManager]("curKS", s.ksmgr) != nil
 //@   modifies gmap("iterkey")
 //@   loop#1 invariant ret != nil && fresh(ret) && (forall qs_ string :: has(ret, qs_) ==> balOK(ret[qs_]))
@@ -579,12 +583,21 @@ func (s *UtxoStore) VerifWF() bool { return s != nil && s.bucketMeta != nil }
 // ---- C01 (rollback lemma): when a rolled-back transaction's debit is undone, the unspent marker re-created for the
 // credit it had spent carries the block of that credit (bytes 32..72 of the credit key), never anything else
 //@ func (*TxStore).Rollback
-//@   props C01 C09 C12
+//@   props C01 C09 C10 C12
 //@   nopanic off
 //@   requires s != nil && s.bucketMeta != nil && s.ksmgr != nil && s.utxoStore != nil && tx != nil
 //@   modifies *
-//@   only fetchNsUnspentValueFromRawCredit valueUnmined putRawUnmined FetchBucket
+//@   only fetchNsUnspentValueFromRawCredit valueUnmined putRawUnmined FetchBucket putRawUnminedInput canonicalOutPoint IsStaking StdEncodeAddress SecondEncodeAddress
 //@   dead returns 1
+// C09: the spent-by-unconfirmed marker of a transaction returning to the pending set is filed under the outpoint its
+// input spends (hash and OUTPUT index of the previous transaction)
+//@   at "debKey, credKey, err := existsDebit(nsDebits, &rec.Hash, uint32(i), &rbBlock.BlockMeta)" assert[C09] bhas(nsUnminedInputs, canonicalOutPoint(&prevOut.Hash, prevOut.Index))
+// C12: the address record looked up (and possibly deleted) for an output is keyed by the staking form of the address
+// for a staking output and by the standard form otherwise -- the forms under which AddCredits files them
+//@   at "addrKey, err := keyAddressRecord(addrRec)"#1 assert[C12] (ghostb("psIsStaking", ps) ==> addrRec.encodeAddress == ghosts("psSecondEnc", ps)) && (!ghostb("psIsStaking", ps) ==> addrRec.encodeAddress == ghosts("psStdEnc", ps))
+//@   at "addrKey, err := keyAddressRecord(addrRec)"#2 assert[C12] (ghostb("psIsStaking", ps) ==> addrRec.encodeAddress == ghosts("psSecondEnc", ps)) && (!ghostb("psIsStaking", ps) ==> addrRec.encodeAddress == ghosts("psStdEnc", ps))
+// C10: the history record of a deposit is flipped back to not-withdrawn for staking AND binding deposits whose spend is undone
+//@   ifat "err = readRawCreditKey(credKey, cred)" guard[C10] cred.flags.Class == ClassStakingUtxo || cred.flags.Class == ClassBindingUtxo
 //@   at "err = deleteRawAddressRecord(nsAddresses, addrKey)"#1 assert[C12] readAddressHeight(addrVal) == curHeight
 //@   at "err = deleteRawAddressRecord(nsAddresses, addrKey)"#2 assert[C12] readAddressHeight(addrVal) == curHeight
 //@   at "err = putRawUnmined(nsUnmined, txHash[:], unminedVal)" assert[C09] len(unminedVal) >= 8 && strOf(unminedVal[8:]) == ghosts("txDBBytes", &rec.MsgTx)
@@ -749,9 +762,28 @@ func (s *UtxoStore) VerifWF() bool { return s != nil && s.bucketMeta != nil }
 //@ func updateBlockRecord
 //@   props C01 C18 C19
 //@   requires ns != nil && block != nil && len(txHashes) >= 1 && len(txHashes) < 4294967296
+// appendRawBlockRecord cannot fail on a value that already has its 44-byte header: one defensive return
+//@   dead returns 1
 //@   modifies bmap(ns)
 //@   ensures err != nil ==> bsame(ns)
 //@   loop#1 invariant 1 <= i && i <= len(txHashes) && len(v) == 44 + 32 * i && fresh(v) && mathint(be32(v, 40)) == i && len(k) == 8 && fresh(k) && be64(k, 0) == block.Height
 //@   at "return putRawBlockRecord(ns, k, v)" assert[C01] len(k) == 8 && be64(k, 0) == block.Height
 //@   at "return putRawBlockRecord(ns, k, v)" assert[C01] len(v) == 44 + 32 * len(txHashes)
 //@   at "return putRawBlockRecord(ns, k, v)" assert[C01] mathint(be32(v, 40)) == len(txHashes)
+
+// ---- C17: one block boundary per query.  syncHeightOf(tx) is the sync height stored in the snapshot tx; every coin
+// query takes the height it classifies against from the same snapshot it reads the coins from.
+//@ func (*SyncStore).SyncedTo
+//@   trusted
+//@   ensures err == nil ==> bm != nil && bm.Height == ghostu64("syncHeightOf", tx)
+//@   ensures err != nil ==> bm == nil
+//@ func (*UtxoStore).ScriptAddressUnspents
+//@   props C17
+//@   trusted
+//@   requires[C17] syncHeight == ghostu64("syncHeightOf", tx)
+//@   modifies *
+//@ func (*UtxoStore).WalletBalance
+//@   props C17
+//@   trusted
+//@   requires[C17] syncHeight == ghostu64("syncHeightOf", tx)
+//@   modifies *
